@@ -64,6 +64,26 @@ var signatures = map[string]func(hi *Hist, v *Violation) bool{
 				continue
 			}
 			pred := facts[bf.Pred]
+			// the hand-over happens in the cycle that renders the finished predecessor for the second
+			// time; a successor whose Add request was served by the container before that render is
+			// not a late one (requests and render cycles are served by the same goroutine)
+			served, second, n := -1, -1, 0
+			for i := range hi.Log {
+				e := &hi.Log[i]
+				if e.Kind == h.EvServed && e.ID == bf.Idx && served < 0 {
+					served = i
+				}
+				if e.Kind == h.EvSpy && e.ID == pred.Idx {
+					if rec := e.V.(h.SpyRec); rec.Completed || rec.Aborted {
+						if n++; n == 2 && second < 0 {
+							second = i
+						}
+					}
+				}
+			}
+			if served >= 0 && second >= 0 && served < second && !pred.Spec.NoSpy {
+				continue
+			}
 			if pred.TermAt >= 0 && bf.AddInv > pred.TermAt {
 				// and that successor is indeed the one that was never shown
 				shown := false
